@@ -102,7 +102,9 @@ func (d *c15Drv) headSize() int64 {
 	return fi.Size()
 }
 
-var c15IndexRe = regexp.MustCompile(`^wal\.([0-9]{3,})$`)
+// every directory entry <head>.<digits> is a rolled file for the harness, whatever the number of
+// digits (the harness does not rely on the group's own idea of which files belong to it)
+var c15IndexRe = regexp.MustCompile(`^wal\.([0-9]+)$`)
 
 // indexed files in the directory: indices (sorted) and sizes
 func (d *c15Drv) indexed() ([]int, []int64) {
@@ -137,8 +139,12 @@ func (d *c15Drv) snap() string {
 		first = int64(idx[0])
 	}
 	g := d.wal.Group()
+	ix := make([]int64, len(idx))
+	for k, i := range idx {
+		ix[k] = int64(i)
+	}
 	return vg.Tup(vg.Z(d.headSize()), vg.Z(int64(g.Buffered())), vg.Z(int64(g.MinIndex())),
-		vg.Z(int64(g.MaxIndex())), vg.Z(first), vg.ZL(sz))
+		vg.Z(int64(g.MaxIndex())), vg.Z(first), vg.ZL(sz), vg.ZL(ix))
 }
 
 // payload printer: long runs of one byte are abbreviated
@@ -354,7 +360,16 @@ func c15RandMsg(r *vg.Rand, h int64) c15Msg {
 
 // ---------------------------------------------------------------- one case
 
+// a record of a rolled file that exists before the WAL is opened for the first time
+type c15PreRec struct {
+	data []byte
+	tag  string
+	text string
+}
+
 type c15Case struct {
+	base    int           // number of the first pre-existing rolled file
+	pre     [][]c15PreRec // records of the pre-existing rolled files, oldest file first
 	d       *c15Drv
 	ops     []string
 	answers []string
@@ -371,6 +386,68 @@ func c15NewCase(hl, tl int64) (*c15Case, error) {
 		return nil, err
 	}
 	return &c15Case{d: &c15Drv{dir: dir, walFile: filepath.Join(dir, "wal"), hl: hl, tl: tl}, kinds: map[string]int{}}, nil
+}
+
+// prepopulate puts n genuine rolled files numbered base, base+1, ... into the (still unopened)
+// directory of the case: a real WAL in a scratch directory writes the records of heights 0..,
+// RotateFile produces wal.000, wal.001, ..., and the files are moved to their numbers.  It
+// returns the height the node works on afterwards (markers 0..H-1 are in the files).
+func (c *c15Case) prepopulate(r *vg.Rand, base, n int) (int64, error) {
+	tmp, err := os.MkdirTemp("", "verif-c15-pre-")
+	if err != nil {
+		return 0, err
+	}
+	defer os.RemoveAll(tmp)
+	d := &c15Drv{dir: tmp, walFile: filepath.Join(tmp, "wal")}
+	d.frames = nil
+	if err := d.open(); err != nil {
+		return 0, err
+	}
+	defer d.stop()
+	var cur []c15PreRec
+	if f := d.takeFrame(); f != nil { // the EndHeightMessage{0} of BaseWAL.OnStart
+		cur = append(cur, c15PreRec{f, vg.Opt(true, vg.Z(0)), "EndHeight{0}"})
+	}
+	H := int64(1)
+	put := func(m c15Msg) error {
+		d.frames = nil
+		if err := d.wal.WriteSync(m.msg); err != nil {
+			return err
+		}
+		f := d.takeFrame()
+		if f == nil {
+			return fmt.Errorf("prepopulate: no frame")
+		}
+		cur = append(cur, c15PreRec{f, m.tag, m.text})
+		return nil
+	}
+	for i := 0; i < n; i++ {
+		for k := r.Intn(3); k > 0; k-- {
+			if err := put(c15RandMsg(r, H)); err != nil {
+				return 0, err
+			}
+		}
+		if err := put(c15EndHeight(H)); err != nil {
+			return 0, err
+		}
+		H++
+		if r.Bool() {
+			if err := put(c15RandMsg(r, H)); err != nil {
+				return 0, err
+			}
+		}
+		d.wal.Group().RotateFile()
+		c.pre = append(c.pre, cur)
+		cur = nil
+	}
+	d.stop()
+	for i := 0; i < n; i++ {
+		if err := os.Rename(fmt.Sprintf("%s.%03d", d.walFile, i), fmt.Sprintf("%s.%03d", c.d.walFile, base+i)); err != nil {
+			return 0, err
+		}
+	}
+	c.base = base
+	return H, nil
 }
 
 func (c *c15Case) close() {
@@ -583,9 +660,26 @@ func (c *c15Case) emit(cs *vg.Cases, id int, kind string, nontrivial bool) {
 	for k, n := range c.kinds {
 		cs.Count(k, n)
 	}
+	pre := make([]string, len(c.pre))
+	preText := ""
+	for i, f := range c.pre {
+		rs := make([]string, len(f))
+		ts := make([]string, len(f))
+		for k, rec := range f {
+			rs[k] = vg.Tup(c15Pl(rec.data), rec.tag)
+			ts[k] = fmt.Sprintf("%s[%d bytes]", rec.text, len(rec.data))
+		}
+		pre[i] = vg.L(rs)
+		preText += fmt.Sprintf(" wal.%03d=[%s]", c.base+i, strings.Join(ts, ", "))
+	}
+	if preText != "" {
+		preText = " existing rolled files (written by a real WAL, renamed):" + preText
+		cs.Count("pre/files", len(c.pre))
+		cs.Count(fmt.Sprintf("pre/base=%d", c.base), 1)
+	}
 	cs.Add(id, kind, nontrivial,
-		vg.App("CWal", vg.Z(c.d.hl), vg.Z(c.d.tl), vg.L(c.ops), vg.L(c.answers), vg.L(c.snaps), ff, fh),
-		fmt.Sprintf("headSizeLimit=%d totalSizeLimit=%d ops: %s", c.d.hl, c.d.tl, strings.Join(c.descr, "; ")))
+		vg.App("CWal", vg.Z(c.d.hl), vg.Z(c.d.tl), vg.Z(int64(c.base)), vg.L(pre), vg.L(c.ops), vg.L(c.answers), vg.L(c.snaps), ff, fh),
+		fmt.Sprintf("headSizeLimit=%d totalSizeLimit=%d%s ops: %s", c.d.hl, c.d.tl, preText, strings.Join(c.descr, "; ")))
 }
 
 // ---------------------------------------------------------------- tests
@@ -758,10 +852,55 @@ func TestVerifC15Directed(t *testing.T) {
 		c.read(1)
 		c.restart(1<<30, 7, true)
 	})
+	// Rolled files of any number: the directory already holds genuine rolled files numbered base,
+	// base+1 (a node that has been running for a long time), the history rotates across the
+	// next power of ten where there is one (9->10, 99->100, 999->1000, 9999->10000), reopens,
+	// searches, reads from every index and prunes.  File numbers have at least three digits and
+	// no upper bound.
+	for _, base := range c15Bases {
+		for _, tl := range []int64{0, 400} {
+			base, tl := base, tl
+			runLim(fmt.Sprintf("large-index/base=%d/tl=%d", base, tl), 0, tl, func(c *c15Case, r *vg.Rand) {
+				H, err := c.prepopulate(r, base, 2)
+				if err != nil {
+					c.err = err
+					return
+				}
+				c.restart(0, H, true) // files base, base+1; new head base+2
+				c.write(c15RandMsg(r, H), true)
+				c.rotate() // -> file base+2
+				c.write(c15RandMsg(r, H), false)
+				c.write(c15EndHeight(H), true)
+				H++
+				c.rotate() // -> file base+3
+				c.write(c15RandMsg(r, H), true)
+				c.restart(1<<30, H, true) // reopen: min/max from the directory
+				c.search(H-1, false)
+				c.search(1, false)
+				g := c.d.wal.Group()
+				for i := g.MinIndex(); i <= g.MaxIndex(); i++ {
+					c.read(i)
+				}
+				c.rotate() // -> file base+4: must not land on an existing file
+				c.write(c15EndHeight(H), true)
+				H++
+				c.checkTotal()
+				c.restart(0, H, true)
+				c.search(H-1, true)
+				c.checkTotal()
+				c.rotate()
+				c.restart(1<<30, H, true)
+			})
+		}
+	}
 	if err := cs.Write(); err != nil {
 		t.Fatal(err)
 	}
 }
+
+// numbers of the first pre-existing rolled file: around every change of the number of digits,
+// plus (random lists) an arbitrary one
+var c15Bases = []int{0, 1, 9, 10, 99, 100, 998, 999, 1000, 1001, 9999, 10000}
 
 func TestVerifC15Random(t *testing.T) {
 	root := vg.NewRand(vg.Seed() ^ 0xc15)
@@ -791,6 +930,20 @@ func TestVerifC15Random(t *testing.T) {
 				}
 			}()
 			H := int64(1) // the height the node is working on: markers 0..H-1 were written
+			// half of the lists start in a directory that already holds 1..3 rolled files with
+			// numbers of any magnitude (own PRNG stream: the other lists are as before)
+			if rp := root.Fork(uint64(k) + 1<<40); rp.Chance(50) {
+				base := c15Bases[rp.Intn(len(c15Bases))]
+				if rp.Chance(15) {
+					base = rp.Intn(2000000)
+				}
+				var err error
+				if H, err = c.prepopulate(rp, base, 1+rp.Intn(3)); err != nil {
+					c.err = err
+					return
+				}
+				kind += "+preexisting"
+			}
 			c.restart(0, H, true)
 			for j := 0; j < nops && !c.stopped && c.err == nil; j++ {
 				switch x := r.Intn(100); {
